@@ -19,9 +19,20 @@ import (
 )
 
 // RecordStoreFactory lets the same driver run against memrecordstore and the SQL store (C18).
-type RecordStoreFactory func() (workflow.RecordStore, func())
+// The third result, when not nil, reports problems the store's backend saw during the sequence (SQL statement log).
+type RecordStoreFactory func() (workflow.RecordStore, func(), func() []string)
 
-func MemRecordStore() (workflow.RecordStore, func()) { return memrecordstore.New(), func() {} }
+func MemRecordStore() (workflow.RecordStore, func(), func() []string) {
+	return memrecordstore.New(), func() {}, nil
+}
+
+// RSOpts adapts the differential suite to a backend.
+type RSOpts struct {
+	Prop            string
+	Suite           string
+	UnorderedOutbox bool     // the backend lists the outbox in no particular order (SQL without ORDER BY): compare as sets under the limit
+	CorpusProps     []string // corpus files of these properties are replayed first
+}
 
 type rsOp struct {
 	Kind                    string // store | lookup | latest | list | outbox | delout | mutstored | mutread | storebad
@@ -119,6 +130,7 @@ type rsRun struct {
 	lastSt   *workflow.Record // last record handed to Store (caller still owns it)
 	lastRead *workflow.Record // last record returned by Lookup/Latest
 	ver      map[int]int
+	opts     RSOpts
 }
 
 func recOut(r *workflow.Record) string {
@@ -270,6 +282,41 @@ func (x *rsRun) apply(ctx context.Context, o rsOp) (string, string, error) {
 			impl = strings.Join(out, ",")
 		}
 		m, e2 := d.Ask(fmt.Sprintf("rs outbox %d %d", o.Wf, o.Lim))
+		if x.opts.UnorderedOutbox && e2 == nil && !d.Null {
+			// any min(limit, n) distinct entries of the workflow are a correct answer; a negative limit may also be refused
+			full, e3 := d.Ask(fmt.Sprintf("rs outbox %d 1000000", o.Wf))
+			if e3 != nil {
+				return impl, m, e3
+			}
+			want := projectOutbox(m)
+			if impl == "err" && o.Lim < 0 {
+				return want, want, nil
+			}
+			all := map[string]bool{}
+			for _, e := range strings.Split(projectOutbox(full), ",") {
+				all[e] = true
+			}
+			n := 0
+			if want != "-" {
+				n = len(strings.Split(want, ","))
+			}
+			okSet := impl != "err"
+			seen := map[string]bool{}
+			cnt := 0
+			if impl != "-" && impl != "err" {
+				for _, e := range strings.Split(impl, ",") {
+					if !all[e] || seen[e] {
+						okSet = false
+					}
+					seen[e] = true
+					cnt++
+				}
+			}
+			if okSet && cnt == n {
+				return want, want, nil
+			}
+			return impl, want + " (any " + strconv.Itoa(n) + " of: " + projectOutbox(full) + ")", nil
+		}
 		// the model renders the whole record; compare id + (wf, rid, st, rs, ver) which is what the entry encodes
 		return impl, projectOutbox(m), e2
 	case "delout":
@@ -345,6 +392,11 @@ func sigOf(o rsOp) string {
 
 // RecordStoreSuite: differential run of a record store against RefStore.
 func RecordStoreSuite(mk RecordStoreFactory, prop string) func(d *leandrv.Driver, r *rng.R, res *report.Result, thorough bool) error {
+	return RecordStoreSuiteOpt(mk, RSOpts{Prop: prop, Suite: "mem-recordstore", CorpusProps: []string{prop}})
+}
+
+func RecordStoreSuiteOpt(mk RecordStoreFactory, opts RSOpts) func(d *leandrv.Driver, r *rng.R, res *report.Result, thorough bool) error {
+	prop := opts.Prop
 	return func(d *leandrv.Driver, r *rng.R, res *report.Result, thorough bool) error {
 		res.Rule = "operation sequences (Store, Lookup, Latest, List with offset/limit/order/multi-value filters, ListOutboxEvents incl. limit<=0, DeleteOutboxEvent incl. unknown ID, " +
 			"caller mutations after Store / after a read, Store with an invalid-UTF-8 foreign ID) over 2 workflows x 3 foreign IDs x 5 run IDs x 4 statuses (1,2,10,11) x 7 run states; " +
@@ -355,12 +407,17 @@ func RecordStoreSuite(mk RecordStoreFactory, prop string) func(d *leandrv.Driver
 		}
 		ctx := context.Background()
 		// corpus first: sequences on which the unrepaired store diverged from the reference
-		files, _ := filepath.Glob("/verif/corpus-adapters/" + prop + "-*.json")
+		var files []string
+		for _, cp := range opts.CorpusProps {
+			fs, _ := filepath.Glob("/verif/corpus-adapters/" + cp + "-*.json")
+			files = append(files, fs...)
+		}
 		sort.Strings(files)
 		for _, f := range files {
 			var body struct {
 				Replay struct {
-					Ops []rsOp `json:"ops"`
+					Suite string `json:"suite"`
+					Ops   []rsOp `json:"ops"`
 				} `json:"replay"`
 			}
 			b, err := os.ReadFile(f)
@@ -370,8 +427,11 @@ func RecordStoreSuite(mk RecordStoreFactory, prop string) func(d *leandrv.Driver
 			if err != nil {
 				return err
 			}
-			st, closeFn := mk()
-			x := &rsRun{store: st, d: d, outSeen: map[string]int{}, ver: map[int]int{}}
+			if body.Replay.Suite != "" && !strings.HasSuffix(body.Replay.Suite, "recordstore") {
+				continue
+			}
+			st, closeFn, _ := mk()
+			x := &rsRun{store: st, d: d, outSeen: map[string]int{}, ver: map[int]int{}, opts: opts}
 			d.Ask("rs reset")
 			for i, o := range body.Replay.Ops {
 				impl, model, err := x.apply(ctx, o)
@@ -391,8 +451,8 @@ func RecordStoreSuite(mk RecordStoreFactory, prop string) func(d *leandrv.Driver
 			res.Count("corpus-file")
 		}
 		for it := 0; it < n; it++ {
-			st, closeFn := mk()
-			x := &rsRun{store: st, d: d, outSeen: map[string]int{}, ver: map[int]int{}}
+			st, closeFn, inspect := mk()
+			x := &rsRun{store: st, d: d, outSeen: map[string]int{}, ver: map[int]int{}, opts: opts}
 			if _, err := d.Ask("rs reset"); err != nil {
 				return err
 			}
@@ -416,13 +476,19 @@ func RecordStoreSuite(mk RecordStoreFactory, prop string) func(d *leandrv.Driver
 				if impl != model && !d.Null {
 					// the reference IS the property's statement: a disagreement is a violation, replay = the sequence
 					v := report.Violation{Property: prop, Oracle: "refines-reference-store", Signature: sigOf(o),
-						Detail: fmt.Sprintf("after %d operations, %s answered %q, the reference store answers %q", i, o.String(), impl, model), Replay: map[string]any{"ops": append([]rsOp{}, ops...), "readable": append([]string{}, hist...)}}
+						Detail: fmt.Sprintf("after %d operations, %s answered %q, the reference store answers %q", i, o.String(), impl, model), Replay: map[string]any{"suite": opts.Suite, "ops": append([]rsOp{}, ops...), "readable": append([]string{}, hist...)}}
 					res.Violate(v)
 					if o.Kind == "outbox" && prop == "C17" { // the outbox listing is also what the relay (C05) lives on
 						v.Property = "C05"
 						res.Violate(v)
 					}
 					break
+				}
+			}
+			if inspect != nil {
+				for _, problem := range inspect() {
+					res.Violate(report.Violation{Property: prop, Oracle: "statement-log", Signature: strings.SplitN(problem, ":", 2)[0],
+						Detail: problem, Replay: map[string]any{"suite": opts.Suite, "ops": append([]rsOp{}, ops...), "readable": append([]string{}, hist...)}})
 				}
 			}
 			if nt {
